@@ -45,7 +45,7 @@ def run(ck):
         jobs.append(lambda: LC.ascoded_model_run(ck, dev, LC.C08_INV))
     # A: the intended design - all C08 invariants must hold; every completed analysis is replayed on the real code.
     # (the TLC runs of B - trace validation - run alongside)
-    LC.direction_a(ck, PID, LC.C08_INV, [], pdf_every=3 if quick else 1, pdf_scales=[1] if quick else [1, 8],
+    LC.direction_a(ck, PID, LC.C08_INV, [], pdf_every=3 if quick else 2, pdf_scales=[1] if quick else [1, 8],
                    pdf_text_every=1, extra_jobs=jobs)
     xr = LC.extra_results()
     if dev:
